@@ -135,6 +135,14 @@ def snap(g, exact=True):
         s["bchg"] = {tuple(sorted(b, key=repr)): {CHANGE_NAME[c]: desc_tuple(d) for c, d in cd.items() if d is not None}
                      for b, cd in g.bond_stereo_changes.items()}
         s["bchg"] = {b: cd for b, cd in s["bchg"].items() if cd}
+        # entries without any descriptor are not stereo changes; they are normalised away above but their keys stay visible here, so that a lookup or a
+        # rejected request that inserts an empty entry into the public view is seen (the key is only present when there is such an entry)
+        ea = sorted((a for a, cd in g.atom_stereo_changes.items() if not any(d is not None for d in cd.values())), key=repr)
+        eb = sorted((tuple(sorted(b, key=repr)) for b, cd in g.bond_stereo_changes.items() if not any(d is not None for d in cd.values())), key=repr)
+        if ea:
+            s["achg_empty_entries"] = ea
+        if eb:
+            s["bchg_empty_entries"] = eb
     return s
 
 
@@ -470,6 +478,8 @@ class Model:
         self.bchg[c] = ds
 
     def delete_atom_stereo_change(self, a, change=None):
+        if a not in self.atoms:
+            raise Reject("names an unknown atom")
         if a not in self.achg or not self.achg[a]:
             raise Either()
         if change is None:
@@ -478,9 +488,13 @@ class Model:
             if change not in self.achg[a]:
                 raise Either()
             del self.achg[a][change]
+            if not self.achg[a]:
+                del self.achg[a]
 
     def delete_bond_stereo_change(self, b, change=None):
         k = frozenset(b)
+        if k not in self.bonds:
+            raise Reject("names an unknown bond")
         if k not in self.bchg or not self.bchg[k]:
             raise Either()
         if change is None:
@@ -489,6 +503,8 @@ class Model:
             if change not in self.bchg[k]:
                 raise Either()
             del self.bchg[k][change]
+            if not self.bchg[k]:
+                del self.bchg[k]
 
     def relabel(self, mapping):
         f = lambda x: mapping.get(x, x) if x is not None else None  # noqa: E731
